@@ -10,7 +10,8 @@ Line-protocol driver for the C03 model (`lake build c03drv`).
   dump <new|legacy|abs> head | num <n> | hash <blockhash>
   reset
 
-`store`/`revert` answer `new=<ok|err:…> legacy=<ok|err:…>`; `dump` answers one token per read in
+`store`/`revert` answer `new=<ok|err:…> legacy=<ok|err:…>` (`store`: plus ` not-wf` when the diff is
+outside the theorems' hypothesis `Diff.WF`); `dump` answers one token per read in
 the order: per address (class hash, nonce, each slot), per class (declared-at, compiled class
 hash); tokens: hex value | nf | at<hex block>; `noview` when the view does not exist.
 -/
@@ -149,7 +150,8 @@ def step (s : DState) (line : String) : DState × String :=
       let (lg, b) := match s.lg.store legacyBackend id d with
         | .ok n => (n, "ok")
         | .error e => (s.lg, "err:" ++ errName e)
-      ({ s with nw := nw, lg := lg, chain := d :: s.chain }, "new=" ++ a ++ " legacy=" ++ b)
+      ({ s with nw := nw, lg := lg, chain := d :: s.chain },
+        "new=" ++ a ++ " legacy=" ++ b ++ (if d.wfb then "" else " not-wf"))
     | _, _ => (s, "bad-op")
   | ["revert"] =>
     let (nw, a) := match s.nw.revert (newBackend s.cfg) with
